@@ -210,7 +210,11 @@ class _RootNameCollector(cst.CSTVisitor):
             if self._in_target == 0:
                 self.names.add(chain[0])
             return False
-        return True
+        # The chain is rooted in something other than a name (e.g. the call in
+        # ``type(x).__module__``): only that root expression reads variables,
+        # the attribute name itself is a member name, not a reference.
+        node.value.visit(self)
+        return False
 
     def visit_Name(self, node: cst.Name) -> bool:  # noqa: N802
         if self._in_target == 0:
